@@ -48,12 +48,24 @@ for line in part("checks against the changed tree").splitlines():
                 e["replays"].append(k.group(2))
         if "no-failing-input-found" not in rest:
             e["with_failing_input"] = True
+def needs(readme):
+    """the paragraph of the sub-agent's README that says what the change needs in order to manifest"""
+    lines = readme.splitlines()
+    for i, l in enumerate(lines):
+        if re.search(r"(?i)(trigger|manifest|what is needed|needed for|what it takes|circumstance)", l):
+            body = [x.strip() for x in lines[i:i + 14] if x.strip()]
+            txt = " ".join(body)
+            if len(txt) > 60:
+                return txt[:900]
+    return " ".join(x.strip() for x in lines[1:12] if x.strip())[:900]
+
+
 readme = open(os.path.join(outdir, "README.md"), errors="replace").read() if os.path.exists(os.path.join(outdir, "README.md")) else ""
 files = sorted(set(re.findall(r"^\+\+\+ b/(\S+)", open(os.path.join(outdir, "patch.diff")).read(), re.M)))
 meta = {
     "id": sid, "property": prop, "files": files,
     "origin": "fresh sub-agent given only the property text and its own scratch worktree of /repo (nothing from /verif)",
-    "needs_to_manifest": next((l.strip() for l in readme.splitlines() if re.search(r"(?i)trigger|manifest|needed|sequence", l) and len(l) > 40), "")[:600],
+    "needs_to_manifest": needs(readme),
     "summary": (readme.strip().splitlines() or [""])[0][:400],
     "confirmed_in_scratch_worktree": {
         "base_commit": base.group(1) if base else None,
